@@ -91,7 +91,7 @@ impl Property for C03 {
     fn runs(&self, tier: Tier) -> usize {
         match tier {
             Tier::Quick => 12_000,
-            Tier::Thorough => 250_000,
+            Tier::Thorough => 1_500_000,
         }
     }
 
@@ -99,7 +99,7 @@ impl Property for C03 {
         let mut rng = Rng::stream(run_seed, "workload");
         let (msb, mib) = match tier {
             Tier::Quick => (8, 3),
-            Tier::Thorough => (11, 4),
+            Tier::Thorough => (10, 4),
         };
         let mut crng = Rng::stream(run_seed, "config");
         // one run in eight: a design shipped under inputs/ (no exhaustive oracle needed for C03:
@@ -152,7 +152,10 @@ impl Property for C03 {
         // find a failing system
         let mut found = None;
         for _ in 0..40 {
-            let sys = gen_system(&mut rng, msb, mib, use_pdr, |c| {
+            // PDR without generalisation blocks states one at a time: its run length grows with
+            // 2^(state bits), so PDR workloads keep the same size bound in both tiers
+            let (sb, ib) = if use_pdr { (msb.min(7), mib.min(3)) } else { (msb, mib) };
+            let sys = gen_system(&mut rng, sb, ib, use_pdr, |c| {
                 if use_pdr {
                     c.arrays = false;
                 }
